@@ -65,6 +65,9 @@ def known_keys(cid: str) -> dict:
 def _run_shard(arg):
     modname, spec, seed, tier = arg
     os.environ["PAV_IN_SHARD"] = "1"
+    os.environ.setdefault("PAV_SHRINK_BUDGET", "5" if tier == "quick" else "40")
+    import warnings
+    warnings.simplefilter("ignore")
     try:
         mod = importlib.import_module(modname)
         t0 = time.time()
